@@ -1,0 +1,28 @@
+//go:build verif
+
+package v2
+
+import (
+	"math/big"
+
+	"github.com/iotaledger/iota.go/consts"
+	"github.com/iotaledger/iota.go/trinary"
+)
+
+// The functions below expose internals for differential verification runs (build tag verif only).
+
+func CheckStateTrits(l, h *[consts.HashTrinarySize]uint, sufficientTrailing int, target *big.Int) int {
+	return checkStateTrits(l, h, sufficientTrailing, target)
+}
+
+func ToInt(trits trinary.Trits) *big.Int { return toInt(trits) }
+
+func SufficientTrailingZeros(data []byte, targetScore uint64) int {
+	return sufficientTrailingZeros(data, targetScore)
+}
+
+func TargetHash(data []byte, targetScore uint64) *big.Int { return targetHash(data, targetScore) }
+
+func StateToInt(l, h *[consts.HashTrinarySize]uint, idx uint) *big.Int { return stateToInt(l, h, idx) }
+
+func Difficulty(powDigest []byte, nonce uint64) *big.Int { return difficulty(powDigest, nonce) }
